@@ -83,6 +83,7 @@ def cases(draw, tier):
         case["encoding"] = draw(st.sampled_from(["utf-16", "utf-32", "utf-8-sig"]))  # encodings able to represent every template character
     elif opt == "custom_template":
         case["template"] = draw(st.sampled_from(["errors.py.jinja", "str_enum.py.jinja", "types.py.jinja"]))
+        case["encoding"] = draw(st.sampled_from(["utf-8", "utf-8", "utf-16", "cp1252"]))
     elif opt == "meta":
         case["metas"] = draw(st.lists(st.sampled_from(["none", "poetry", "pdm", "setup"]), min_size=2, max_size=3, unique=True))
     elif opt == "post_hooks":
@@ -129,12 +130,21 @@ def sweep(tier):
         for maps_to in ("application/json", "application/octet-stream"):
             for side in ("request", "response"):
                 out.append(base(option="content_type", key=key, maps_to=maps_to, side=side))
+    # keys that are media types the generator knows natively: the override re-purposes them all the same
+    for key, maps_to in (("application/octet-stream", "application/json"), ("application/json", "application/octet-stream"),
+                         ("text/plain", "application/json"), ("application/x-www-form-urlencoded", "application/json"),
+                         ("application/vnd.api+json", "application/octet-stream")):   # (not multipart/form-data: it cannot be "sent as itself" without a boundary)
+        for side in ("request", "response"):
+            out.append(base(option="content_type", key=key, maps_to=maps_to, side=side))
     for pfx in ("attr_", "f", "zq_"):
         out.append(base(option="field_prefix", prefix=pfx))
     for enc in ("utf-16", "utf-32", "utf-8-sig"):
         out.append(base(option="encoding", encoding=enc))
     for t in ("errors.py.jinja", "str_enum.py.jinja", "types.py.jinja"):
         out.append(base(option="custom_template", template=t))
+        # ... and together with an output encoding: templates are UTF-8 files whatever encoding the output is written in
+        for enc in ("utf-16", "cp1252"):
+            out.append(base(option="custom_template", template=t, encoding=enc))
     for h in ("order", "failing", "missing"):
         out.append(base(option="post_hooks", hooks=h))
     for m in ("poetry", "pdm", "setup"):
@@ -598,7 +608,8 @@ def _opt_content_type(case, ctx):
     a = gen(doc_for(Y))
     b = gen(doc_for(X), cfg={"content_type_overrides": {X: Y}})
     ctx.evals(2)
-    site = {"option": "content_type", "key_shape": ("parameterised" if ";" in X else "upper" if X != X.lower() else "unparseable" if X.count("/") != 1 else "bare"),
+    native = X in ("application/json", "application/octet-stream", "text/plain", "application/x-www-form-urlencoded", "multipart/form-data", "application/vnd.api+json")
+    site = {"option": "content_type", "key_shape": "native" if native else ("parameterised" if ";" in X else "upper" if X != X.lower() else "unparseable" if X.count("/") != 1 else "bare"),
             "side": side, "maps_to": Y.split("/")[1]}
     try:
         if a.exc is not None or not a.accepted or a.errors:
@@ -713,11 +724,19 @@ def _opt_custom_template(case, ctx):
     with open(src, encoding="utf-8") as f:
         text = f.read()
     with open(os.path.join(tdir, tname), "w", encoding="utf-8") as f:
-        f.write(text + "\n# ZQ-CUSTOM-TEMPLATE-MARKER\n")
+        f.write(text + "\n# ZQ-CUSTOM-TEMPLATE-MARKER g\u00e9n\u00e9r\u00e9\n")
+    enc = case.get("encoding") or "utf-8"
     doc, a = _base(case, ctx)
     if a is None:
         return
-    b = gen(doc, custom_templates=tdir)
+    if enc != "utf-8":
+        _cleanup(a)
+        a = gen(doc, encoding=enc)
+        if a.exc is not None or not a.accepted:
+            ctx.skip("generator_rejected_or_crashed")
+            _cleanup(a)
+            return
+    b = gen(doc, custom_templates=tdir, encoding=enc)
     ctx.evals()
     try:
         if b.exc is not None or not b.accepted:
@@ -730,8 +749,10 @@ def _opt_custom_template(case, ctx):
         for k in sorted(set(sa) | set(sb)):
             if sa.get(k) == sb.get(k):
                 continue
-            if not allowed(k) or b"ZQ-CUSTOM-TEMPLATE-MARKER" not in (sb.get(k) or b""):
+            if not allowed(k) or "ZQ-CUSTOM-TEMPLATE-MARKER" not in (sb.get(k) or b"").decode(enc, "replace"):
                 ctx.violation("custom_template.only_files_from_that_template", {"option": "custom_template", "template": tname}, k)
+            elif "ZQ-CUSTOM-TEMPLATE-MARKER g\u00e9n\u00e9r\u00e9" not in (sb.get(k) or b"").decode(enc, "replace"):
+                ctx.violation("custom_template.text_reproduced", {"option": "custom_template", "template": tname, "encoding": enc}, k)
             else:
                 marked += 1
         if tname != "str_enum.py.jinja" and marked == 0:
